@@ -115,8 +115,37 @@ pub fn gen_alpha_pat(rng: &mut Rng) -> AlphaPat {
 /// A valid crop box (inside the image, positive area), of the kinds the properties name.
 pub fn gen_crop(rng: &mut Rng, sw: u32, sh: u32) -> Crop {
     let (w, h) = (sw as f64, sh as f64);
-    match rng.below(9) {
+    match rng.below(10) {
         0 | 1 => Crop::None,
+        9 => {
+            // coordinates a hair away from whole numbers (an ulp, 2^-31, 1e-12): code that decides "is this a whole number"
+            // with a tolerance and code that truncates must still agree on which pixels the box covers
+            if sw < 3 || sh < 3 {
+                return Crop::None;
+            }
+            let l0 = rng.range(1, (sw - 2) as u64) as f64;
+            let t0 = rng.range(1, (sh - 2) as u64) as f64;
+            let cw0 = rng.range(1, (w - 1.0 - l0) as u64) as f64;
+            let ch0 = rng.range(1, (h - 1.0 - t0) as u64) as f64;
+            let mut nudge = |v: f64| -> f64 {
+                let d = match rng.below(8) {
+                    0 | 1 => 0.0,
+                    2 => v - pred(v),
+                    3 => 2.0 * (v - pred(v)),
+                    4 => 2f64.powi(-31),
+                    5 => 1e-12,
+                    6 => 4e-15 * v.max(1.0),
+                    _ => 2f64.powi(-20),
+                };
+                if rng.chance(1, 2) { v - d } else { v + d }
+            };
+            let (l, t, cw, ch) = (nudge(l0), nudge(t0), nudge(cw0), nudge(ch0));
+            if l >= 0.0 && t >= 0.0 && cw > 0.0 && ch > 0.0 && l + cw <= w && t + ch <= h {
+                Crop::Box([l, t, cw, ch])
+            } else {
+                Crop::Box([l0, t0, cw0, ch0])
+            }
+        }
         2 => {
             // integer
             let l = rng.below(sw as u64) as f64;
@@ -315,6 +344,15 @@ pub fn random_case(rng: &mut Rng, o: &GenOpts) -> RCase {
             crop = Crop::Box([l, t, w, h]);
             dw = w as u32;
             dh = h as u32;
+        }
+    }
+    if let Crop::Box(b) = crop {
+        // a box whose size is a hair away from a whole number: the destination often has that whole size
+        if b[2] != b[2].round() && (b[2] - b[2].round()).abs() < 1e-5 && b[2].round() >= 1.0 && rng.chance(2, 3) {
+            dw = b[2].round() as u32;
+        }
+        if b[3] != b[3].round() && (b[3] - b[3].round()).abs() < 1e-5 && b[3].round() >= 1.0 && rng.chance(2, 3) {
+            dh = b[3].round() as u32;
         }
     }
     if let Crop::Box(b) = crop {
